@@ -756,6 +756,8 @@ def _three_way(ctx, stream, lines, expected=None, nontrivial=None):
                                       "impl": i, "python": e})
         ctx.count(stream + "-python-voice", npy)
     for l, i in zip(lines, impl):
+        if i == "EXIT1" and stream == "instance-calc-sighash":
+            continue      # Instance::calc_sighash refuses transactions that do not have exactly one input (diagnostic, exit 1); compared with the model above
         if i in ("bad-op", "bad-tx") or i.startswith(("HARNESS-EXC", "DIED", "UNCAUGHT", "CRASH", "EXIT")):
             ctx.violation(l, {"stream": stream, "why": "harness could not run the case", "impl": i}, suffix="no-failing-input-found")
             break
